@@ -7,6 +7,7 @@ x=<owner slots whose liveness contradicts the owner's size/index> A=<owner> B=<o
 every operation compares the full slot map of both owners and the cumulative count of every kind of special
 member call between implementation and model only (spec/std column `*`)."""
 import itertools
+import os
 import random
 
 from lib import Case, fmt_list
@@ -30,10 +31,14 @@ RULE = ("A case is a history on two owners A, B of one type, ended by the destru
         "alternatives, optional, expected, inplace_function with 2 callable types; element kinds copy+move, move-only, "
         "copy-only (move-only cannot be stored in inplace_function). Exhaustive part: for the containers, from EVERY pair of "
         "sizes (|A|,|B|) in [0,cap]^2 every member with every position / range / count it accepts (one-step box), and from "
-        "every size pair every sequence of 2 (thorough: 3) operations of a 12-17 letter alphabet that contains every "
+        "every size pair every sequence of 2 (thorough: 3) operations of an alphabet of 12-19 letters that contains every "
         "copy/move/assign/swap/self form; for variant / optional / expected / inplace_function from EVERY pair of live "
         "alternatives every sequence of 2 (thorough: 3) operations over the full alphabet (all from/to index combinations of "
-        "every emplace, converting assignment, copy/move construction and assignment, swap and self form). Random part "
+        "every emplace<J>(int / T const& / T&&), converting assignment v = t / v = move(t) / v = v[index_v<index()>], "
+        "optional = T, copy/move construction and assignment, swap and self form; inplace_function also from a function object of a smaller capacity; for variant and "
+        "inplace_function at depth 2 a pair of "
+        "operations that each involve one owner only is run on the same owner, not on two different ones, where the two "
+        "touch disjoint storage). Random part "
         "(VERIF_SEED): histories of 8-40 operations over all members, kept inside the documented preconditions by a "
         "reference simulation (the same predicates as Tetl.C03.vvalid/svalid/xvalid/fvalid). After EVERY operation the slot "
         "map of both owners, the number of live locals and the cumulative per-kind event counts are compared with the model. "
@@ -57,16 +62,18 @@ TRUSTED = ["hand model Tetl/C03/Model.lean + Session.lean (event sequences) tied
 _P = "Tetl.C03.Props."
 _VEC = [_P + "vec_step_safe", _P + "vec_reach_inv", _P + "vec_finish_balanced", _P + "vec_history_safe"]
 _SET = [_P + "set_step_safe", _P + "set_reach_inv", _P + "set_history_safe"]
-_ALT = [_P + "alt_step_safe_partial", _P + "alt_reach_inv_partial", _P + "alt_finish_balanced", _P + "alt_history_safe_partial"]
+_ALT = [_P + "alt_step_safe", _P + "alt_reach_inv", _P + "alt_finish_balanced", _P + "alt_history_safe"]
 _FN = [_P + "fn_step_safe", _P + "fn_reach_inv", _P + "fn_finish_balanced", _P + "fn_history_safe"]
 THEOREMS = {op: _VEC for op in
             ["push_c", "push_m", "emplace_back", "try_push_c", "try_push_m", "try_emplace_back", "pop", "ins_c", "ins_m",
              "ins_n", "ins_r", "emplace", "erase_at", "erase_range", "clear", "resize", "resize_v", "assign_n", "assign_r",
-             "erase_if", "cctor", "mctor", "cassign", "massign", "cassign_self", "swap", "swap_self", "end", "new", "detail"]}
-THEOREMS.update({op: _ALT for op in ["vemplace", "vemplace_c", "vemplace_m", "oassign_c", "oassign_m", "reset", "use"]})
-THEOREMS.update({op: _SET for op in ["sins_c", "sins_m", "semplace", "erase_key", "extract"]})
-THEOREMS["vassign_own"] = [_P + "alt_assign_own_counterexample", _P + "alt_step_safe_partial"]
-THEOREMS.update({op: _FN for op in ["fctor_c", "fctor_m", "fassign_c", "fassign_m", "massign_self", "invoke"]})
+             "ctor_n", "ctor_nv", "ctor_r", "erase_if", "cctor", "mctor", "cassign", "massign", "cassign_self", "swap", "swap_self", "end", "new", "detail"]}
+THEOREMS.update({op: _ALT for op in ["vemplace", "vemplace_c", "vemplace_m", "vassign_c", "vassign_m", "oassign_c", "oassign_m",
+                                     "reset", "use"]})
+THEOREMS.update({op: _SET for op in ["sins_c", "sins_m", "semplace", "erase_key", "extract", "replace"]})
+THEOREMS["vassign_own"] = _ALT + [_P + "alt_assign_own_id"]
+THEOREMS.update({op: _FN for op in ["fctor_c", "fctor_m", "fassign_c", "fassign_m", "fconv_cc", "fconv_mc", "fconv_ca", "fconv_ma",
+                                    "massign_self", "invoke"]})
 THEOREMS["swap_self"] = _VEC + [_P + "vec_swap_self_id", _P + "alt_swap_self_id", _P + "fn_swap_self_id"]
 THEOREMS["cassign_self"] = _VEC + [_P + "alt_copy_assign_self_id", _P + "fn_assign_self_id"]
 SEARCH_CAP = 300000
@@ -93,13 +100,16 @@ def vec_members(own, kind):
     if own == "iv":
         m += ["try_push_m", "try_emplace_back"] + (["try_push_c"] if cp else [])
     if own == "sv":
-        m += ["ins_m", "emplace", "resize", "erase_if"] + (["ins_c", "ins_n", "ins_r", "assign_r", "resize_v", "assign_n"] if cp else [])
+        m += ["ins_m", "emplace", "resize", "erase_if", "ctor_n"] + \
+            (["ins_c", "ins_n", "ins_r", "assign_r", "resize_v", "assign_n", "ctor_nv", "ctor_r"] if cp else [])
     if own in ("sv", "ss", "fs"):
         m += ["erase_at", "erase_range"]
     if own in ("ss", "fs"):
         m += ["sins_m", "erase_key"] + (["sins_c"] if cp else []) + (["semplace"] if cp or own == "fs" else [])
     if own == "fs":
         m.append("extract")
+        if cp:
+            m.append("replace")    # _container = move(c): static_vector has no move assignment for move-only elements
     return m
 
 
@@ -108,17 +118,22 @@ def alt_members(own, kind):
     m = ["vemplace", "vemplace_m", "mctor", "massign", "swap", "swap_self", "use"]
     if cp:
         m += ["vemplace_c", "cctor", "cassign", "cassign_self"]
+    if own == "var":
+        # the converting assignment `variant = T` (assign through / emplace) and `v = v[index_v<index()>]`
+        m += ["vassign_m"] + (["vassign_c", "vassign_own"] if cp else [])
     if own == "opt":
         m += ["oassign_m", "reset"] + (["oassign_c"] if cp else [])
     return m
 
 
-FN_MEMBERS = ["fctor_c", "fctor_m", "fassign_c", "fassign_m", "reset", "cctor", "mctor", "cassign", "massign",
+FN_MEMBERS = ["fctor_c", "fctor_m", "fassign_c", "fassign_m", "fconv_cc", "fconv_mc", "fconv_ca", "fconv_ma", "reset", "cctor", "mctor", "cassign", "massign",
               "cassign_self", "massign_self", "swap", "swap_self", "invoke"]
-RESPEC_VEC = {"clear", "assign_n", "assign_r", "cctor", "mctor", "cassign", "massign", "swap"}
-RESPEC_ALT = {"vemplace", "vemplace_c", "vemplace_m", "oassign_c", "oassign_m", "reset", "cctor", "mctor", "cassign",
+BINARY = {"cctor", "mctor", "cassign", "massign", "swap"}   # operations that read or write the other owner
+RESPEC_VEC = {"clear", "assign_n", "assign_r", "ctor_n", "ctor_nv", "ctor_r", "replace", "cctor", "mctor", "cassign", "massign", "swap"}
+RESPEC_ALT = {"vemplace", "vemplace_c", "vemplace_m", "vassign_c", "vassign_m", "oassign_c", "oassign_m", "reset", "cctor", "mctor", "cassign",
               "massign", "swap"}
-RESPEC_FN = {"fctor_c", "fctor_m", "fassign_c", "fassign_m", "reset", "cctor", "mctor", "cassign", "massign", "swap"}
+FCONV = ("fconv_cc", "fconv_mc", "fconv_ca", "fconv_ma")   # from an inplace_function of a smaller capacity
+RESPEC_FN = {"fctor_c", "fctor_m", "fassign_c", "fassign_m", "fconv_cc", "fconv_mc", "fconv_ca", "fconv_ma", "reset", "cctor", "mctor", "cassign", "massign", "swap"}
 
 
 def alts_of(own):
@@ -174,10 +189,15 @@ class VSim:
                 return ["f=%d l=%d" % (f, la) for f in range(n + 1) for la in range(f, n + 1)]
             f = rnd.randint(0, n)
             return ["f=%d l=%d" % (f, rnd.randint(f, n))]
-        if op in ("resize", "resize_v", "assign_n"):
-            extra = " v=%d" % val() if op != "resize" else ""
+        if op in ("resize", "resize_v", "assign_n", "ctor_n", "ctor_nv"):
+            extra = " v=%d" % val() if op not in ("resize", "ctor_n") else ""
             return ["n=%d%s" % (c, extra) for c in (range(cap + 1) if full else [rnd.randint(0, cap)])]
-        if op == "assign_r":
+        if op == "replace":
+            # sorted, duplicate-free keys: the precondition of flat_set::replace
+            if full:
+                return ["xs=%s" % fmt_list(list(range(1, c + 1))) for c in range(cap + 1)]
+            return ["xs=%s" % fmt_list(sorted(rnd.sample(range(6), rnd.randint(0, min(cap, 6)))))]
+        if op in ("assign_r", "ctor_r"):
             if full:
                 return ["xs=%s" % fmt_list([val() + i for i in range(c)]) for c in range(cap + 1)]
             return ["xs=%s" % fmt_list([val() for _ in range(rnd.randint(0, cap))])]
@@ -221,9 +241,11 @@ class VSim:
             d[t] = (d[t] + [0] * cap)[:iv("n")]
         elif op == "resize_v":
             d[t] = (d[t] + [iv("v")] * cap)[:iv("n")]
-        elif op == "assign_n":
+        elif op in ("assign_n", "ctor_nv"):
             d[t], self.u[t] = [iv("v")] * iv("n"), False
-        elif op == "assign_r":
+        elif op == "ctor_n":
+            d[t], self.u[t] = [0] * iv("n"), False
+        elif op in ("assign_r", "ctor_r", "replace"):
             d[t], self.u[t] = lst("xs"), False
         elif op == "erase_if":
             d[t] = [x for x in d[t] if x % iv("md") != iv("r")]
@@ -258,10 +280,10 @@ class XSim:
         if op == "swap" and self.u[t] and self.u[o]:
             return []
         val = (lambda: rnd.randint(1, 9)) if rnd else (lambda: 7)
-        if op in ("vemplace", "vemplace_c", "vemplace_m"):
+        if op in ("vemplace", "vemplace_c", "vemplace_m", "vassign_c", "vassign_m"):
             js = alts_of(self.own)
             return ["j=%d v=%d" % (j, val()) for j in (js if full else [rnd.choice(js)])]
-        if op in ("fctor_c", "fctor_m", "fassign_c", "fassign_m"):
+        if op in ("fctor_c", "fctor_m", "fassign_c", "fassign_m") + FCONV:
             return ["j=%d v=%d" % (j, val()) for j in ((0, 1) if full else [rnd.randrange(2)])]
         if op in ("oassign_c", "oassign_m"):
             return ["v=%d" % val()]
@@ -273,7 +295,7 @@ class XSim:
         o = 1 - t
         if self.own == "fn":
             h = self.has
-            if op in ("fctor_c", "fctor_m", "fassign_c", "fassign_m"):
+            if op in ("fctor_c", "fctor_m", "fassign_c", "fassign_m") + FCONV:
                 h[t] = True
             elif op == "reset":
                 h[t] = False
@@ -283,8 +305,8 @@ class XSim:
                 h[t], h[o] = h[o], False
             elif op == "swap":
                 h[t], h[o] = h[o], h[t]
-        if op in ("vemplace", "vemplace_c", "vemplace_m", "oassign_c", "oassign_m", "reset", "fctor_c", "fctor_m",
-                  "fassign_c", "fassign_m"):
+        if op in ("vemplace", "vemplace_c", "vemplace_m", "vassign_c", "vassign_m", "oassign_c", "oassign_m", "reset", "fctor_c", "fctor_m",
+                  "fassign_c", "fassign_m") + FCONV:
             self.u[t] = False
         elif op in ("cctor", "cassign"):
             self.u[t] = self.u[o]
@@ -340,12 +362,19 @@ def generate(tier, seed):
     cases = []
     dist = {}
 
+    # self-test aid (mutants/C03): VERIF_C03_OWNERS=var,fn restricts the generated cases to these owners; unset = all
+    only = [o for o in os.environ.get("VERIF_C03_OWNERS", "").split(",") if o]
+
     def add(lines, tag):
+        if only and tag.split("/")[1] not in only:
+            return
         cases.append(Case(finish(lines), tag))
         dist[tag] = dist.get(tag, 0) + 1
 
     # ---- containers: one-step box from every size pair, then short sequences over a reduced alphabet
     for own in VEC_OWNERS:
+        if only and own not in only:
+            continue
         for kind in KINDS:
             mem = vec_members(own, kind)
             for cap in (2, 3, 4):
@@ -370,7 +399,8 @@ def generate(tier, seed):
                 depth = 3 if thorough else 2
                 alpha = [m for m in mem if m in ("cctor", "mctor", "cassign", "massign", "cassign_self", "swap", "swap_self",
                                                  "clear", "push_m", "pop", "emplace", "erase_at", "erase_if", "ins_c",
-                                                 "sins_m", "sins_c", "erase_key", "extract", "try_push_m", "resize")]
+                                                 "sins_m", "sins_c", "erase_key", "extract", "try_push_m", "resize", "replace",
+                                                 "ctor_n")]
                 shapes = [(0, 0), (1, 0), (2, 1), (3, 2), (3, 3), (0, 3)]
                 for na, nb in shapes:
                     for seq in itertools.product([(m, t) for m in alpha for t in (0, 1)], repeat=depth):
@@ -393,6 +423,8 @@ def generate(tier, seed):
 
     # ---- variant-like owners and inplace_function: every sequence over the full alphabet from every index pair
     for own in ALT_OWNERS + ["fn"]:
+        if only and own not in only:
+            continue
         for kind in KINDS:
             if own == "fn" and kind == "mo":
                 continue
@@ -418,7 +450,11 @@ def generate(tier, seed):
                         letters.append((m, t, args))
             for st in starts:
                 for seq in itertools.product(letters, repeat=depth):
-                    if depth == 3 and rnd.random() > (0.25 if own != "var" else 0.08):
+                    if depth == 3 and rnd.random() > {"var": 0.04, "fn": 0.08}.get(own, 0.25):
+                        continue
+                    if depth == 2 and own in ("var", "fn") and seq[0][1] != seq[1][1] and not (seq[0][0] in BINARY or seq[1][0] in BINARY):
+                        # two single-owner operations on different owners touch disjoint storage and commute; each of
+                        # them is run from this start as the first letter of the sequences on its own target
                         continue
                     sim = new_sim(own, 1)
                     lines = [head]
@@ -437,12 +473,13 @@ def generate(tier, seed):
                     if ok:
                         add(lines, "seq%d/%s/%s" % (depth, own, kind))
 
-    # ---- the known finding: converting assignment of a variant from its own live alternative
+    # ---- converting assignment of a variant from its own live alternative (the former finding
+    #      F-C03-variant-assign-own-alternative, fixed by e7501ef), also on a moved-from variant and after a self-swap
     for kind in ("cm", "co"):
         for j in range(3):
             for pre in ([], ["mctor t=1"], ["swap_self t=0"]):
                 add(["new own=var kind=%s cap=1" % kind, "vemplace t=0 j=%d v=%d" % (j, 4 + j)] + pre + ["vassign_own t=0"],
-                    "finding/var/%s" % kind)
+                    "assignown/var/%s" % kind)
 
     # ---- random histories
     nrand = 12000 if thorough else 1500
@@ -475,9 +512,8 @@ def nontrivial(case, rows):
 
 
 def classify(case, k, row):
-    """same predicate as the case `.assignOwn => false` of Tetl.C03.xvalid"""
-    if case.lines[k].startswith("vassign_own") and "life(use-dead)" in row.impl:
-        return "F-C03-variant-assign-own-alternative"
+    """no class of inputs is excluded: Tetl.C03.xvalid accepts every operation since the converting assignment of
+    variant assigns through (e7501ef), so nothing is attributed to a known finding"""
     return None
 
 
@@ -485,7 +521,7 @@ def group_of(case):
     return "/".join(case.tag.split("/")[:2])
 
 
-CLAIMED = False  # temporarily: variant/optional assignment model must be reconciled with the C07 follow-up fixes on main
+CLAIMED = True
 TECHNIQUE = ("Lean 4 proof: slot-state machine (dead / live / moved-from per storage slot, typed by alternative) whose events "
              "are the special member calls the source performs; owner invariants and absence of every illegal transition by "
              "induction over histories; model tied to the code by an instrumented element type whose address registry and "
@@ -494,7 +530,8 @@ LEVEL_TEXT = ("Storage is modelled as an arena of slots (dead, or live with the 
               "moved-from) and every owner operation of static_vector, inplace_vector, stack, static_set, flat_set, variant (any "
               "number of alternatives), optional, expected and inplace_function as the exact sequence of element constructor / "
               "assignment / destructor calls the C++ source performs (emplace_back + the rotate swap cycle, move-down erase + "
-              "destroy tail, uninitialized_copy/move, destroy + replace of variant, the relocate/copy/destructor vtable entries "
+              "destroy tail, uninitialized_copy/move, destroy + replace of variant emplace and cross-alternative assignment, assign-through of "
+              "same-alternative variant assignment and converting assignment, the relocate/copy/destructor vtable entries "
               "of inplace_function, the generic three-move swap). Each event is a partial transition: constructing over a live "
               "object, using or assigning dead storage, destroying twice, using an object as another alternative and move-"
               "assigning a value-holding object to itself are errors. Lean 4 proves, with no bound on the history length, the "
@@ -503,9 +540,9 @@ LEVEL_TEXT = ("Storage is modelled as an arena of slots (dead, or live with the 
               "exactly the slots [0,size) (resp. the slot of the live alternative / stored callable) alive and every local dead, "
               "keeps #constructed = #destroyed + #alive, and that destroying the owners leaves nothing alive with #constructed = "
               "#destroyed; moved-from owners satisfy the same invariant; self copy-assignment and self-swap return the identical "
-              "slot contents. One operation is excluded and recorded as a known finding: the converting assignment of a variant "
-              "from its own live alternative destroys the alternative before copying from it (partial theorems + counterexample "
-              "theorem). The model is tied to the current source on every run: an instrumented element type records every "
+              "slot contents, and so does the converting assignment of a variant from its own live alternative (v = "
+              "v[index_v<index()>], a copy self-assignment of the held object since the fix e7501ef; no operation is excluded). "
+              "The model is tied to the current source on every run: an instrumented element type records every "
               "special member call in an address registry (live / dead / moved-from / alternative) and the slot maps of both "
               "owners, the number of live locals and the cumulative count of each kind of call are compared with the model after "
               "every operation of exhaustive small-scope and random histories under ASan/UBSan.")
@@ -524,9 +561,12 @@ CORRESPONDENCE_ONLY = [
     "an order that is not lifetime-correct is reported by the registry of the element type itself",
     "values: apart from self copy-assignment / self-swap (identical slot contents, proved) the theorems are about liveness, not about "
     "which value ends up where; values are compared with the model and the spec on every run (value-level theorems: C01, C07, C09, C20)",
-    "not explored and not modelled: flat_set::replace, the sized / range / c_array constructors of static_vector and the range "
-    "constructor of static_set (they forward to emplace_n / insert, which are), converting constructors of variant / optional / "
-    "expected from a value, inplace_function construction from a function of another capacity, pair / tuple (members, language lifetime)",
+    "not explored and not modelled: the c_array constructor of static_vector and the range constructor of static_set (they forward to "
+    "move_insert / insert, which are; the sized, fill and range constructors of static_vector and flat_set::replace are modelled, "
+    "proved and explored; inplace_vector has no sized / range constructor in this library), converting constructors of variant / optional / "
+    "expected from a value, optional<T> = U and optional<T> = optional<U> for U other than T (the paths of optional.hpp that assign "
+    "through since 48efb47; they need a second element type; optional<T> = T goes through a temporary optional and is explored), "
+    "expected holding its error alternative (reachable only through unexpected / converting constructors), pair / tuple (members, language lifetime)",
     "static_vector of move-only elements has no move assignment and no swap (operator=(static_vector&&) is constrained on "
     "is_assignable<T&, T&>): those operations do not exist for the move-only kind and are absent from its histories",
 ]
